@@ -74,6 +74,9 @@ def case_merge(ctx, inp):
         kw["indicator"] = True
     if inp.get("suffixes"):
         kw["suffixes"] = tuple(inp["suffixes"])
+    dkw = dict(kw)
+    if inp.get("npartitions"):
+        dkw["npartitions"] = inp["npartitions"]
     # pandas reference
     if how == "leftsemi":
         keys = set(map(tuple, right[on].astype(object).where(right[on].notna(), None).itertuples(index=False)))
@@ -84,9 +87,9 @@ def case_merge(ctx, inp):
         exp = left.merge(right, on=on, how=how, **{k: v for k, v in kw.items() if k in ("indicator", "suffixes")})
     try:
         with dask.config.set(scheduler="sync"):
-            got = dl.merge(dr, on=on, how=how, **kw).compute()
+            got = dl.merge(dr, on=on, how=how, **dkw).compute()
     except Exception as e:  # noqa: BLE001
-        ctx.fail(f"merge(how={how}) raised: " + U.exc_name(e), observed=[U.exc_name(e), kw])
+        ctx.fail(f"merge(how={how}) raised: " + U.exc_name(e), observed=[U.exc_name(e), dkw])
         return
     cols = [c for c in exp.columns]
     if sorted(got.columns) != sorted(cols):
@@ -94,7 +97,7 @@ def case_merge(ctx, inp):
         return
     g, e = _rows(got, cols), _rows(exp, cols)
     if g != e:
-        ctx.fail(f"merge(how={how}, {kw}) differs from pandas as a multiset of rows", observed=g[:25], expected=e[:25])
+        ctx.fail(f"merge(how={how}, {dkw}) differs from pandas as a multiset of rows", observed=g[:25], expected=e[:25])
     ctx.branch(f"merge-{how}-" + ("bcast" if kw.get("broadcast") else "nobcast" if kw.get("broadcast") is False else "auto")
                + ("-multi" if len(inp["lcuts"]) > 2 and len(inp["rcuts"]) > 2 else ""))
     # Lean specification and plan on the single key `k`
@@ -114,6 +117,55 @@ def case_merge(ctx, inp):
         ctx.eq("Lean join specification vs pandas", canon(spec), pe)
         ctx.eq("Lean hash-join plan vs specification", canon(plan), canon(spec))
     del pd, dd
+
+
+def case_chain(ctx, inp):
+    """a merge chained after a merge that is lowered to a broadcast join (many vs few partitions): the second merge must
+    still co-locate the keys of its input"""
+    import dask
+    import pandas as pd
+    dd = U.dd()
+    big = pd.DataFrame({"k": inp["bk"], "k2": [k % 3 for k in inp["bk"]], "bv": range(len(inp["bk"]))})
+    small = pd.DataFrame({"k": inp["sk"], "sv": range(len(inp["sk"]))})
+    third = pd.DataFrame({inp["on2"]: inp["tk"], "tv": range(len(inp["tk"]))})
+    try:
+        with dask.config.set(scheduler="sync"):
+            m1 = dd.from_pandas(big, npartitions=inp["nb"]).merge(dd.from_pandas(small, npartitions=inp["ns"]), on="k", how=inp["how1"])
+            got = m1.merge(dd.from_pandas(third, npartitions=inp["nt"]), on=inp["on2"], how=inp["how2"], broadcast=inp.get("broadcast2")).compute()
+    except Exception as e:  # noqa: BLE001
+        ctx.fail("chained merge raised: " + U.exc_name(e), observed=U.exc_name(e))
+        return
+    exp = big.merge(small, on="k", how=inp["how1"]).merge(third, on=inp["on2"], how=inp["how2"])
+    cols = list(exp.columns)
+    if sorted(got.columns) != sorted(cols) or _rows(got, cols) != _rows(exp, cols):
+        ctx.fail("merge chained after a (broadcast) merge differs from pandas", observed=[len(got)], expected=[len(exp)])
+    ctx.branch(f"chain-{inp['how1']}-{inp['how2']}-on-{inp['on2']}")
+
+
+def case_index_bcast(ctx, inp):
+    """broadcast join whose non-broadcast side is joined on its index"""
+    import dask
+    dd = U.dd()
+    left, right = _frames(inp)
+    li = left.set_index("k")
+    try:
+        with dask.config.set(scheduler="sync"):
+            got = dd.from_pandas(li, npartitions=inp["nl"], sort=False).merge(
+                dd.from_pandas(right, npartitions=inp["nr"]), left_index=True, right_on="k", how=inp["how"], broadcast=True).compute()
+    except ValueError as e:
+        sig = ("merge:broadcast:how!=inner:non-broadcast-side-joined-on-index:ValueError"
+               if inp["how"] != "inner" and "Length of values" in str(e) else None)
+        ctx.fail("index broadcast merge raised: " + U.exc_name(e), sig=sig, observed=U.exc_name(e))
+        return
+    except Exception as e:  # noqa: BLE001
+        ctx.fail("index broadcast merge raised: " + U.exc_name(e), observed=U.exc_name(e))
+        return
+    exp = li.merge(right, left_index=True, right_on="k", how=inp["how"])
+    g = sorted(zip(got.lv.fillna(-1), got.rv.fillna(-1)))
+    e = sorted(zip(exp.lv.fillna(-1), exp.rv.fillna(-1)))
+    if g != e:
+        ctx.fail("index broadcast merge differs from pandas", observed=g[:20], expected=e[:20])
+    ctx.branch("index-bcast-" + inp["how"])
 
 
 def case_join(ctx, inp):
@@ -185,6 +237,10 @@ def case_concat(ctx, inp):
             else:
                 r = dd.concat(frames, axis=0, **kw)
                 exp = pd.concat(dfs, axis=0, join=inp["join"])
+                if inp.get("project"):
+                    cols_p = [c for c in inp["project"] if c in exp.columns]
+                    if cols_p:
+                        r, exp = r[cols_p], exp[cols_p]
             got = r.compute()
             divs = list(r.divisions)
             parts = U.partitions(r)
@@ -207,7 +263,7 @@ def case_concat(ctx, inp):
         ctx.fail("concat differs from pandas as a multiset of rows", observed=g[:20], expected=e[:20])
     if axis == 0 and not inp["interleave"] and not (divs[0] is not None):
         # plain stacking promises the order of pandas.concat
-        if list(got.x) != list(exp.x):
+        if "x" in exp.columns and list(got.x) != list(exp.x):
             ctx.fail("concat(axis=0) without known divisions does not stack the partitions in order", observed=list(got.x)[:30])
     if divs[0] is not None:
         why = U.truthful(divs, parts)
@@ -241,7 +297,8 @@ def case_asof(ctx, inp):
     ctx.branch("asof-" + inp["direction"])
 
 
-CASES = {"merge": case_merge, "join": case_join, "concat": case_concat, "asof": case_asof}
+CASES = {"merge": case_merge, "join": case_join, "concat": case_concat, "asof": case_asof, "chain": case_chain,
+         "index_bcast": case_index_bcast}
 
 
 def _keys(rng, n, hi, na):
@@ -265,7 +322,7 @@ def generate(ctx):
                         "broadcast": rng.choice([None, True, True, False, 0.9]),
                         "method": rng.choice([None, "tasks", "disk"]),
                         "indicator": rng.random() < 0.15, "suffixes": rng.choice([None, None, ["_l", "_r"]]),
-                        "n": rng.randint(1, 5)}
+                        "n": rng.randint(1, 5), "npartitions": rng.choice([None, None, 1, 2, 3, 7])}
     for _ in range(ctx.n(60, 600)):
         nl, nr = rng.randint(1, 12), rng.randint(1, 12)
         uniq = rng.random() < 0.5
@@ -283,7 +340,30 @@ def generate(ctx):
             lo = i * 10 if rng.random() < 0.4 else 0
             frames.append({"idx": [rng.randint(lo, lo + 9) for _ in range(n)], "n": rng.randint(1, 3), "extra": rng.random() < 0.5})
         yield "concat", {"frames": frames, "axis": rng.choice([0, 0, 0, 1]), "join": rng.choice(["outer", "inner"]),
-                         "interleave": rng.random() < 0.6, "known": known}
+                         "interleave": rng.random() < 0.6, "known": known,
+                         "project": rng.choice([None, ["y0"], ["y1"], ["x", "y1"], ["y0", "y1"]])}
+    for _ in range(ctx.n(25, 250)):
+        nbig = rng.randint(20, 80)
+        hi = rng.choice([5, 12, 20])
+        on2 = rng.choice(["k", "k", "k2"])
+        yield "chain", {"bk": [rng.randint(0, hi) for _ in range(nbig)], "sk": list(range(hi + 1)) if rng.random() < 0.5 else [rng.randint(0, hi) for _ in range(rng.randint(1, 10))],
+                        "tk": [rng.randint(0, hi if on2 == "k" else 2) for _ in range(rng.randint(1, 15))], "on2": on2,
+                        "nb": rng.choice([12, 20, 32, 40]), "ns": rng.choice([1, 2, 2, 3]), "nt": rng.randint(1, 6),
+                        "how1": rng.choice(["inner", "inner", "left"]), "how2": rng.choice(["inner", "left", "outer"]),
+                        "broadcast2": rng.choice([None, False])}
+    for _ in range(ctx.n(12, 120)):
+        nl, nr = rng.randint(2, 14), rng.randint(2, 14)
+        yield "index_bcast", {"lk": _keys(rng, nl, 6, False), "rk": _keys(rng, nr, 6, False), "nl": rng.randint(1, 5), "nr": rng.randint(1, 5),
+                              "how": rng.choice(["inner", "left", "right"])}
+    # merge_asof around partition boundaries: the left frame's last key equals a key of the right frame that starts a
+    # later right partition
+    for _ in range(ctx.n(30, 300)):
+        nr = rng.randint(4, 14)
+        rt = sorted(rng.randint(0, 20) for _ in range(nr))
+        pick = rt[rng.randrange(1, nr)]
+        lt = sorted([rng.randint(0, pick) for _ in range(rng.randint(1, 8))] + [pick] * rng.randint(1, 2))
+        yield "asof", {"lt": lt, "rt": rt, "nl": rng.randint(1, 3), "nr": rng.randint(2, 5),
+                       "direction": rng.choice(["backward", "forward", "nearest"]), "tolerance": None, "exact": rng.choice([None, False])}
     for _ in range(ctx.n(40, 400)):
         nl, nr = rng.randint(1, 12), rng.randint(1, 12)
         yield "asof", {"lt": [rng.randint(0, 30) for _ in range(nl)], "rt": [rng.randint(0, 30) for _ in range(nr)],
